@@ -156,7 +156,7 @@ Definition aname_beq (a b : aname) : bool :=
   end.
 
 (* Action(action, gate_spec, args); args is a tuple of tuples of ints:
-   ((1,w1),(2,w2)) for a gate cut, ((input, wire, new_wire),...) for wire cuts *)
+   (((1,w1),(2,w2)),) for a gate cut (modelled without the outer 1-tuple), ((input, wire, new_wire),...) for wire cuts *)
 Record action := mkA { a_name : aname ; a_gate : gate_spec ; a_args : list (list nat) }.
 
 Record dstate := mkS {
